@@ -574,7 +574,7 @@ func init() {
 	vfw.Register(&vfw.Check{
 		ID:    "C06",
 		Level: "exploration",
-		Rule: "one case = one simulated ledger run over 1-3 epochs with a replayer client that re-submits every included transaction later (same or later block, after the epoch change, after a rollback) and a Byzantine block that carries an already included transaction; " +
+		Rule: "one case = one simulated ledger run over 1-3 epochs with a replayer client that re-submits every included transaction later (same or later block, after the epoch change, after a rollback), a Byzantine block that carries an already included transaction, and proposers whose candidate list also offers already included, future-epoch, past-epoch, used-nonce and gapped transactions to the node's own block builder; " +
 			"non-trivial = >= 3 replays of included transactions were attempted; distinct by history fingerprint",
 		Real:         append(append([]string{}, realLedger...), "Blockchain.ResetTo (rollback and re-inclusion)"),
 		Stub:         stubLedger,
